@@ -126,6 +126,10 @@ var nodeNames = []string{"m1", "m2", "m3"}
 
 // one log entry: one point of one metric at the slot that equals its sequence
 func nodeMessage(name string, seq int) []byte {
+	if name == "bad" {
+		// not a compressed block: the local replicator cannot decode it and skips it (IgnoreMessage)
+		return []byte(fmt.Sprintf("not-a-snappy-block-%d", seq))
+	}
 	m := &protoMetricsV1.Metric{Name: name, Timestamp: nodeFamilyStart + int64(seq)*10000 + 1,
 		Tags:         []*protoMetricsV1.KeyValue{{Key: "host", Value: "h"}},
 		SimpleFields: []*protoMetricsV1.SimpleField{{Name: "f", Value: 1, Type: protoMetricsV1.SimpleFieldType_DELTA_SUM}}}
@@ -284,7 +288,7 @@ func (r *nodeRun) replicaStep() bool {
 		replica.VerifReplicaRound(r.n.part, 1)
 		// the metadata goroutine assigns the id asynchronously: wait until the name resolves
 		// (it never will if the entry was rejected as already persisted and its name was lost)
-		if seq >= 0 && seq < len(r.names) {
+		if seq >= 0 && seq < len(r.names) && r.names[seq] != "bad" {
 			for i := 0; i < 100; i++ {
 				if _, err := r.n.db.MetaDB().GetMetricID("default-ns", r.names[seq]); err == nil {
 					break
@@ -513,7 +517,8 @@ func nodeHistory(rec *trace.Recorder, dir string, rng *rand.Rand, h int, image, 
 	// family's log, again after more entries, and once more after the flush job acknowledged everything
 	var forced []int
 	if h == 0 {
-		forced = []int{0, 0, 40, 40, 97, 0, 40, 97, 70, 97}
+		// (with an undecodable entry behind two consumed, unflushed ones)
+		forced = []int{0, 0, 40, 40, 1, 40, 97, 0, 40, 97, 70, 97}
 		steps = len(forced)
 	}
 	if late {
@@ -529,6 +534,9 @@ func nodeHistory(rec *trace.Recorder, dir string, rng *rand.Rand, h int, image, 
 		switch {
 		case c < 35 && len(run.names) < 8:
 			name := nodeNames[rng.Intn(len(nodeNames))]
+			if c == 1 || (len(forced) == 0 && h != 0 && h < 1000 && rng.Intn(8) == 0) {
+				name = "bad"
+			}
 			seq := len(run.names)
 			run.step("Append", trace.F{"name": name}, func() {
 				if err := n.part.WriteLog(nodeMessage(name, seq)); err != nil {
